@@ -249,6 +249,8 @@ class Program:
         for p in pkgs:
             data = F.load(p, repo=repo, log=log)
             self.crates[p] = data
+            if data.get("missing"):
+                raise SystemExit(f"facts for {p} lack MIR for {data['missing'][:5]} (fail closed)")
             self.fresh[p] = data["_fresh"]
             for bd in data["bodies"]:
                 b = Body(bd, p)
@@ -353,6 +355,8 @@ def resolve_const(body, op, depth=6):
     rv = payload["rv"]
     if rv["k"] == "use":
         return resolve_const(body, rv["op"], depth - 1)
+    if rv["k"] == "ref" and rv["place"]["p"] == ["*"]:
+        return resolve_const(body, {"k": "copy", "place": {"l": rv["place"]["l"], "p": []}}, depth - 1)
     if rv["k"] == "aggr" and "adt" in rv and not rv["ops"]:
         return {"k": "const", "variant": rv["variant"], "adt": rv["adt"], "val": rv["vidx"], "text": rv["variant"]}
     if rv["k"] == "cast":
